@@ -682,3 +682,60 @@ func genRefinement(ld *Loader, specs *Specs, rf *Refinement) *FuncVC {
 	vc.Abstracted = g.abstracted
 	return vc
 }
+
+// genStructural: a trusted contract is an assumption about the function's effect, so its body is not translated; the
+// structural clauses it carries (nocall) are still checked against the body -- every call instruction of the function and
+// of the closures it defines -- so a change that makes a trusted function do something its callers' proofs rule out is seen.
+func genStructural(ld *Loader, specs *Specs, fn *ssa.Function, ct *Contract) *FuncVC {
+	g := ld.newGen(specs, GenOpts{})
+	vc := &FuncVC{Key: fn.String(), Label: shortFn(fn), Contract: ct}
+	e := g.e
+	n := 0
+	var scan func(f *ssa.Function)
+	scan = func(f *ssa.Function) {
+		for _, b := range f.Blocks {
+			for _, in := range b.Instrs {
+				if _, dbg := in.(*ssa.DebugRef); !dbg {
+					vc.Instrs++
+				}
+				c, ok := in.(ssa.CallInstruction)
+				if !ok {
+					continue
+				}
+				k := ""
+				cm := c.Common()
+				if cm.IsInvoke() {
+					k = ifaceMethodKey(cm.Value.Type(), cm.Method.Name())
+				} else if sc := cm.StaticCallee(); sc != nil {
+					k = sc.String()
+				}
+				if k == "" {
+					continue
+				}
+				for _, nc := range ct.NoCalls {
+					if strings.HasSuffix(k, nc.Src) {
+						n++
+						pos := ""
+						if in.Pos().IsValid() {
+							pp := ld.fset.Position(in.Pos())
+							pos = fmt.Sprintf("%s:%d", strings.TrimPrefix(pp.Filename, "/repo/"), pp.Line)
+						}
+						e.oblige(&Obl{Name: fmt.Sprintf("%s#nocall:%s@%d", vc.Label, nc.Label, n), Kind: "nocall", Props: nc.Props,
+							Cond: tTrue, Goal: tFalse, Pos: pos, Fn: vc.Label})
+					}
+				}
+			}
+		}
+		for _, af := range f.AnonFuncs {
+			scan(af)
+		}
+	}
+	scan(fn)
+	for _, nc := range ct.NoCalls {
+		e.oblige(&Obl{Name: fmt.Sprintf("%s#nocall:%s", vc.Label, nc.Label), Kind: "nocall", Props: nc.Props, Cond: tTrue, Goal: tTrue, Pos: nc.Where, Fn: vc.Label})
+	}
+	vc.Prefix = e.prefix()
+	vc.Obls = e.obls
+	vc.Callees = map[string]string{}
+	return vc
+}
